@@ -421,3 +421,98 @@ fn client_walk_delete(pp: &mut ParsedPacket, authority: bool) -> (res: (Ghost<Se
     proof { if cur.len() == 0 { reveal(ParsedPacket::wf); } }
     (Ghost(cur), Ghost(yielded))
 }
+
+// ---------------------------------------------------------------------------------------------------------------------------------
+// C08/C09: the in-place field setters on a pointer-free packet (on a packet that still holds pointers another name may read the
+// written bytes: open known finding)
+fn client_set_ttl(it: &mut ResponseIterator, ttl: u32)
+    requires old(it).wf(), old(it).rr_iterator.offset.is_some(), !old(it).pp().maybe_compressed, pf_packet(old(it).pk()),
+        !is_opt(old(it).pk(), old(it).rr_iterator.offset.unwrap() as int),
+    ensures final(it).wf(), pf_packet(final(it).pk()), !final(it).pp().maybe_compressed, final(it).tfin() == old(it).tfin(),
+        final(it).rr_iterator.offset == old(it).rr_iterator.offset && final(it).rr_iterator.rrs_left == old(it).rr_iterator.rrs_left,
+        ({ let u = old(it).pk(); let v = final(it).pk(); let si = sec_idx(old(it).rr_iterator.section); let k = old(it).visited() - 1; let ne = old(it).rr_iterator.name_end as int;
+           // "TTL and address setters change only that field of that record"
+           others_kept(u, v, si, k, 1, 1) && v == u.subrange(0, ne + 4) + b32(ttl) + u.subrange(ne + 8, u.len() as int) }),
+{
+    hide(pf_rr); hide(pf_rrs); hide(pf_rrs_end); hide(pf_n_opt); hide(pf_packet); hide(opt_at); hide(pcs_walk); hide(rec_ok); hide(opts); hide(wf_bytes); hide(recs_all); hide(sec_end); hide(n_opt);
+    hide(ParsedPacket::wf); hide(walk); hide(skip_walk); hide(rec_bytes);
+    let ghost pp0 = it.pp(); let ghost u = it.pk(); let ghost si = sec_idx(it.rr_iterator.section); let ghost k = it.visited() - 1;
+    let ghost o = it.rr_iterator.offset.unwrap() as int; let ghost ne = it.rr_iterator.name_end as int;
+    proof {
+        lemma_resp_k(it);
+        assert(pp0.packet.is_some()) by { reveal(ParsedPacket::wf); }
+        lemma_pf_packet_facts(u); lemma_opt_at_3(u, sec_st(u, si), sec_n(u, si), k, 1);
+        lemma_pf_rr_spec(u, o, SecT::Answer, false);
+        assert(pcs_end(u, o).is_some() && ne + 10 <= pf_end(u, o)) by { reveal(pf_rr); }
+    }
+    it.set_rr_ttl(ttl);
+    proof {
+        let fin = it.pp(); let v = fin.bytes();
+        assert(v.len() == u.len());
+        assert forall|i: int| 0 <= i < u.len() && !(ne + 4 <= i < ne + 8) implies v[i] == u[i] by { }
+        lemma_field_wf(fin, pp0, si, k, ne + 4, ne + 8);
+        lemma_pf_rec(v, o);
+        lemma_cursor_wf(it, si, k);
+    }
+}
+fn client_set_ip(it: &mut ResponseIterator, ip: &IpAddr) -> (r: Result<(), Error>)
+    requires old(it).wf(), old(it).rr_iterator.offset.is_some(), !old(it).pp().maybe_compressed, pf_packet(old(it).pk()),
+        !is_opt(old(it).pk(), old(it).rr_iterator.offset.unwrap() as int),
+    ensures final(it).wf(), pf_packet(final(it).pk()), !final(it).pp().maybe_compressed, final(it).tfin() == old(it).tfin(),
+        final(it).rr_iterator.offset == old(it).rr_iterator.offset && final(it).rr_iterator.rrs_left == old(it).rr_iterator.rrs_left,
+        r.is_err() ==> final(it).pk() == old(it).pk(),
+        r.is_ok() ==> others_kept(old(it).pk(), final(it).pk(), sec_idx(old(it).rr_iterator.section), old(it).visited() - 1, 1, 1),
+{
+    hide(pf_rr); hide(pf_rrs); hide(pf_rrs_end); hide(pf_n_opt); hide(pf_packet); hide(opt_at); hide(pcs_walk); hide(rec_ok); hide(opts); hide(wf_bytes); hide(recs_all); hide(sec_end); hide(n_opt);
+    hide(ParsedPacket::wf); hide(walk); hide(skip_walk); hide(rec_bytes);
+    let ghost pp0 = it.pp(); let ghost u = it.pk(); let ghost si = sec_idx(it.rr_iterator.section); let ghost k = it.visited() - 1;
+    let ghost o = it.rr_iterator.offset.unwrap() as int; let ghost ne = it.rr_iterator.name_end as int;
+    proof {
+        lemma_resp_k(it);
+        assert(pp0.packet.is_some()) by { reveal(ParsedPacket::wf); }
+        lemma_pf_packet_facts(u); lemma_opt_at_3(u, sec_st(u, si), sec_n(u, si), k, 1);
+        lemma_pf_rr_spec(u, o, SecT::Answer, false);
+        assert(pcs_end(u, o).is_some() && ne + 10 + be16(u, ne + 8) == pf_end(u, o) && (be16(u, ne) == 1 ==> be16(u, ne + 8) == 4) && (be16(u, ne) == 28 ==> be16(u, ne + 8) == 16)) by { reveal(pf_rr); }
+    }
+    // the length of an address is known to the verifier only through `octets()` (assumed specification of std)
+    match ip { IpAddr::V4(a) => { let o4 = a.octets(); proof { assert(v4_octets(*a).len() == 4); } } IpAddr::V6(a) => { let o6 = a.octets(); proof { assert(v6_octets(*a).len() == 16); } } }
+    let r = it.set_rr_ip(ip);
+    proof {
+        let fin = it.pp(); let v = fin.bytes();
+        if r.is_ok() {
+            let w: int = if be16(u, ne) == 1 { 4 } else { 16 };
+            assert(v.len() == u.len());
+            assert forall|i: int| 0 <= i < u.len() && !(ne + 10 <= i < ne + 10 + w) implies v[i] == u[i] by { }
+            lemma_field_wf(fin, pp0, si, k, ne + 10, ne + 10 + w);
+            lemma_pf_rec(v, o);
+            lemma_cursor_wf(it, si, k);
+        } else {
+            assert(it.wf()) by { reveal(ParsedPacket::wf); }
+        }
+    }
+    r
+}
+// header setters (transaction id, flags word): bytes 0..3 only
+fn client_set_header(pp: &mut ParsedPacket, tid: u16, flags: u32, rcode: u8, opcode: u8, qr: bool)
+    requires old(pp).wf(), !old(pp).maybe_compressed, pf_packet(old(pp).bytes())
+    ensures final(pp).wf(), !final(pp).maybe_compressed, pf_packet(final(pp).bytes()),
+        // "untargeted header fields and the EDNS data stay equal", every record keeps its bytes
+        forall|i: int| 4 <= i < old(pp).bytes().len() ==> final(pp).bytes()[i] == old(pp).bytes()[i],
+        forall|sj: int, j: int| 1 <= sj <= 3 && 0 <= j < sec_n(old(pp).bytes(), sj) ==> #[trigger] rec_bytes(final(pp).bytes(), sec_st(final(pp).bytes(), sj), j) == rec_bytes(old(pp).bytes(), sec_st(old(pp).bytes(), sj), j),
+{
+    hide(pf_rr); hide(pf_rrs); hide(pf_rrs_end); hide(pf_n_opt); hide(pf_packet); hide(opt_at); hide(pcs_walk); hide(rec_ok); hide(opts); hide(wf_bytes); hide(recs_all); hide(sec_end); hide(n_opt);
+    hide(ParsedPacket::wf); hide(walk); hide(skip_walk); hide(rec_bytes);
+    let ghost pp0 = *pp; let ghost u = pp.bytes();
+    proof { assert(pp0.has_hdr()) by { reveal(ParsedPacket::wf); reveal(wf_bytes); } }
+    pp.set_tid(tid);
+    pp.set_flags(flags);
+    pp.set_rcode(rcode);
+    pp.set_opcode(opcode);
+    pp.set_response(qr);
+    proof {
+        let v = pp.bytes();
+        assert(v.len() == u.len());
+        assert forall|i: int| 4 <= i < u.len() implies v[i] == u[i] by { }
+        lemma_hdr_wf(*pp, pp0);
+    }
+}
